@@ -437,6 +437,17 @@ func c06Hostile(c *core.Case) {
 		"corrupt-body":    corrupt,
 		"truncated":       good(pos.TXID+1, pos.TXID+1, pos.Chk)[:130],
 	}
+	{
+		// a well-formed SNAPSHOT (first transaction 1, every page) that ends before
+		// the primary's position: it extends nothing either
+		full := map[uint32][]byte{}
+		for p := uint32(1); p <= next.PageN; p++ {
+			full[p] = next.Page(p)
+		}
+		if pos.TXID > 1 {
+			variants["snapshot-behind"] = buildLTX(ps, next.PageN, 1, pos.TXID-1, 0, next.Checksum(), full, 0x4242)
+		}
+	}
 	// (1) through the forwarding endpoint, as the legitimate halt-lock holder
 	hid := fmt.Sprint(5000 + c.Rng.IntN(1000))
 	req, _ := http.NewRequest("POST", P.URL()+"/halt?name=db&id="+hid, nil)
